@@ -50,7 +50,10 @@ def plan(ex, tier, first):
     import tprop
     if ("src/lib.rs", "replay_api.rs", "verif_replay_api") not in tprop.SCEN_INJ:
         tprop.SCEN_INJ.append(("src/lib.rs", "replay_api.rs", "verif_replay_api"))
-    p = [("put.finish", [stage, wal, snap, one, ack, rec, snc]), ("remove", [wal, snap, one, ack, rec, snc]), ("checkpoint", [snap, one, snc])]
+    trunc = ("a WAL segment that may hold records is never opened with truncate", T.make_p_wal_never_truncated(ex), "wal_never_truncated", "strace")
+    init = ("first-time initialisation: until the index is loaded only idempotent effects and the atomic installation of a complete, synced settings file",
+            T.p_init_crash_safe, "init_crash_safe", "crash")
+    p = [("open.new", [init]), ("put.finish", [stage, wal, snap, one, ack, rec, snc, trunc]), ("remove", [wal, snap, one, ack, rec, snc, trunc]), ("checkpoint", [snap, one, snc, trunc])]
     if tier == "thorough" and first:
         p.append(("remove_range", [wal, snap, one, ack]))
     return p
@@ -61,9 +64,19 @@ def run(tier, seed, ev):
     rc_m = tcommon.generic_run(PROP, tier, seed, ev, plan, [
         "process-kill model: completed file-system calls persist, a crash falls between two calls",
         "K stubs: File::write accepts the whole buffer, File::sync_data -> Ok, libc::close -> 0",
-        "image-level recovery (replay of every cut image gives old or old+op) is argued from these ordering facts plus "
-        "C02/C20's replay obligations; it is not yet a single solver query (see DESIGN.md, status)"],
+        "image level: after every filesystem effect of every path the abstract disk image recovers (textbook replay) to the old map or the "
+        "old map plus the operation, with every key's blob present; acknowledged => the new map (obl_crash.py); the real replay loop's "
+        "agreement with the textbook replay on well-formed logs is C02's obligation"],
         worlds=[{"spill": True}])
+    import mirrun, mprop
+    import obl_replay as R
+    with mirrun.mir_executor(PROP + "r") as (ex, scr, mir_s):
+        rc_r = mprop.run_m(PROP, tier, seed, ev, ex, [("recovery (replay_and_prepare): next above everything seen, own segment created+synced, no existing segment truncated",
+                                                       "replay_prepare", lambda ex: R.ob_prepare(ex))],
+                           [("src/lib.rs", "replay_api.rs", "verif_replay_api")], "replay_recovery_crash")
+        rc_r = tcommon.best(rc_r, tcommon.crash_image_run(PROP, tier, seed, ev, ex, "kill"))
+        rc_r = tcommon.best(rc_r, tcommon.recovery_image_run(PROP, tier, seed, ev, ex))
+    rc_m = tcommon.best(rc_m, rc_r)
     ev.functions = ev.functions + KH_LIST[0].functions
     ev.bounds["write_entry payload"] = KH_LIST[0].bounds
     return tcommon.best(rc_k, rc_m)
